@@ -53,7 +53,9 @@ class _TransactionBase:
             if transaction_item.new is None:
                 # a deleted (context) state: it is removed from the mdib, this cannot be communicated via notification
                 continue
-            table.add_object_no_lock(transaction_item.new)
+            # the mdib gets its own copy: the object that was handed out to the user stays a private object,
+            # changing it after the commit must not change the mdib
+            table.add_object_no_lock(transaction_item.new.mk_copy(copy_node=False))
             updates_list.append(transaction_item.new.mk_copy(copy_node=False))
         return updates_list
 
@@ -314,6 +316,8 @@ class DescriptorTransaction(_TransactionBase):
                         'transaction_manager: new descriptor Handle={}, DescriptorVersion={}',
                         new_descriptor.Handle, new_descriptor.DescriptorVersion)
                     proc.descr_created.append(new_descriptor.mk_copy())
+                    # the mdib gets its own copy, the descriptor that the user created stays a private object
+                    new_descriptor = new_descriptor.mk_copy()
                     self._mdib.descriptions.add_object_no_lock(new_descriptor)
                     # increment DescriptorVersion if a child descriptor is added or deleted.
                     if new_descriptor.parent_handle is not None \
@@ -336,11 +340,12 @@ class DescriptorTransaction(_TransactionBase):
                         self._increment_parent_descriptor_version(proc, orig_descriptor)
                 else:
                     # this is an update operation
-                    proc.descr_updated.append(new_descriptor)
+                    proc.descr_updated.append(new_descriptor.mk_copy())
                     self._logger.debug(  # noqa: PLE1205
                         'transaction_manager: update descriptor Handle={}, DescriptorVersion={}',
                         new_descriptor.Handle, new_descriptor.DescriptorVersion)
-                    orig_descriptor.update_from_other_container(new_descriptor)
+                    # update from a copy: update_from_other_container shares nested values with its source
+                    orig_descriptor.update_from_other_container(new_descriptor.mk_copy())
                     self._update_corresponding_state(orig_descriptor)
                     self._mdib.descriptions.update_object_no_lock(orig_descriptor)
             for updates_dict, dest_list in ((self.alert_state_updates, proc.alert_updates),
